@@ -8,5 +8,6 @@ CONSTANTS
   GapFix = FALSE
   CertRounds = {1}
   Direct = FALSE
+  MidCrash = FALSE
   Timeouts = FALSE
 PROPERTY RestartCoversKnown
